@@ -64,7 +64,7 @@ class C01(Prop):
         'C08 relation (only whitespace before argument openers removed)',
     )
     probes = ('buf', 'tok', 'read')
-    probed_every = 0  # TODO probes
+    probed_every = 16
     min_nontrivial = 1000
     budget_s = {'quick': 240, 'thorough': 3000}
 
